@@ -13,6 +13,8 @@ Trace == ndJsonDeserialize("trace.ndjson")
 MCPrefixOf(k) == CASE k \in {1, 2, 3, 4} -> "a" [] k \in {5, 6} -> "b" [] OTHER -> "ab"   \* a/1 a/1/x a/2 a/3 b/1 b/2 ab/1
 
 V(x) == IF x = "" THEN NoVal ELSE x
+\* "e" stands for the empty value: such a key is live (iteration lists it) but a point read cannot tell it from an absent one
+Blind(v) == IF v = "e" THEN NoVal ELSE v
 Pairs(seq) == [i \in 1..Len(seq) |-> <<seq[i].k, V(seq[i].v)>>]
 
 TraceInit == Init /\ l = 1 /\ ok = TRUE /\ TLCSet(1, 0)
@@ -21,18 +23,18 @@ Step(r) ==
    CASE r.op = "start"    -> vers' = << >> /\ stack' = <<Empty>> /\ cp' = [on |-> FALSE, base |-> NoMap, ov |-> Empty] /\ last' = [op |-> "init"] /\ ok' = TRUE
      [] r.op = "set"      -> Set(r.k, r.v) /\ ok' = (r.err = "")
      [] r.op = "delete"   -> Delete(r.k) /\ ok' = (r.err = "")
-     [] r.op = "get"      -> Get(r.k) /\ ok' = (r.err = "" /\ last'.res = V(r.val))
+     [] r.op = "get"      -> Get(r.k) /\ ok' = (r.err = "" /\ Blind(last'.res) = V(r.val))
      [] r.op = "iter"     -> Iter(r.p, r.rev) /\ ok' = (r.err = "" /\ last'.res = Pairs(r.items))
      [] r.op = "nest"     -> Nest /\ ok' = TRUE
      [] r.op = "flush"    -> Flush /\ ok' = (r.err = "")
      [] r.op = "discard"  -> Discard /\ ok' = TRUE
      [] r.op = "commit"   -> Commit /\ ok' = (r.err = "")
-     [] r.op = "getAt"    -> ReadAt(r.ver, r.k) /\ ok' = (r.err = "" /\ last'.res = V(r.val))
+     [] r.op = "getAt"    -> ReadAt(r.ver, r.k) /\ ok' = (r.err = "" /\ Blind(last'.res) = V(r.val))
      [] r.op = "iterAt"   -> IterAt(r.ver, r.p, r.rev) /\ ok' = (r.err = "" /\ last'.res = Pairs(r.items))
      [] r.op = "copy"     -> CopyMake /\ ok' = (r.err = "")
      [] r.op = "cpset"    -> CopySet(r.k, r.v) /\ ok' = (r.err = "")
      [] r.op = "cpdelete" -> CopyDel(r.k) /\ ok' = (r.err = "")
-     [] r.op = "cpget"    -> CopyGet(r.k) /\ ok' = (r.err = "" /\ last'.res = V(r.val))
+     [] r.op = "cpget"    -> CopyGet(r.k) /\ ok' = (r.err = "" /\ Blind(last'.res) = V(r.val))
      [] r.op = "cpiter"   -> CopyIter(r.p, r.rev) /\ ok' = (r.err = "" /\ last'.res = Pairs(r.items))
      [] r.op = "rollback" -> Rollback(r.ver) /\ ok' = (r.err = "")
      [] r.op = "maint"    -> UNCHANGED vars /\ ok' = (r.err = "")     \* memtable flush / compaction: no logical effect
